@@ -205,8 +205,14 @@ impl Exact {
         }
         let v = &a - &b;
         let inv_frob = frob_f64(&inv);
-        let u2: f64 = uvec_abs.iter().flatten().map(|c| qf(c) * qf(c)).sum();
-        let bmaj = (1.0 + kappa) * inv_frob * u2;
+        // ||u~||^2 ||L^-1||_F without intermediate underflow: u~ can be 1e-190 while L^-1 is 1e+190
+        let umax = uvec_abs.iter().flatten().map(qf).fold(0.0f64, f64::max);
+        let bmaj = if umax == 0.0 {
+            0.0
+        } else {
+            let u2s: f64 = uvec_abs.iter().flatten().map(|c| (qf(c) / umax) * (qf(c) / umax)).sum();
+            (1.0 + kappa) * (inv_frob * umax) * umax * u2s
+        };
         let vf = qf(&v.abs());
         let cond_v = (qf(&a) + bmaj) / vf;
         let cancel_ratio = (qf(&a) + qf(&b.abs())) / vf;
